@@ -49,23 +49,38 @@ def worker_main(prop, tier, seed, start, step, count):
     from harness import env
     env.install(seed)
     mod = importlib.import_module('harness.props.' + prop.lower())
-    from harness import driver
+    from harness import driver, monitors
     out = sys.stdout
     i = start
     while i < count:
         t0 = env.real_time()
         driver.COUNTERS.clear()
+        guard = None if os.environ.get('VERIF_NO_HANG_GUARD') else monitors.GUARD
+        if guard is not None:
+            guard.arm()
         try:
             res = mod.run_case(i, seed, tier)
+        except monitors.BudgetExceeded as e:
+            # more than SEGMENT_BUDGET logical steps inside one library call: non-termination
+            if guard is not None:
+                guard.disarm()
+            res = {'verdict': 'violated', 'nontrivial': True, 'shape': 'nonterminating',
+                   'violations': [{'key': 'nonterminating:%s' % e, 'detail': 'a library call executed more than %d function entries + loop back-edges without returning (in %s); case %d seed %d tier %s' % (monitors.HangGuard.SEGMENT_BUDGET, e, i, seed, tier),
+                                   'replay': {'property': prop, 'case': i, 'seed': seed, 'tier': tier, 'by_case': True}}]}
         except BaseException as e:  # harness error: inconclusive, never a violation
             import traceback
             res = {'verdict': 'inconclusive', 'violations': [], 'nontrivial': False, 'shape': 'harness-error',
                    'error': '%s: %s' % (type(e).__name__, e), 'traceback': traceback.format_exc()[-2000:]}
             if isinstance(e, KeyboardInterrupt):
                 raise
+        if guard is not None:
+            guard.disarm()
         res['case'] = i
         res['wall'] = round(env.real_time() - t0, 4)
         c = dict(driver.COUNTERS)
+        if guard is not None:
+            c['max:steps_per_call_segment'] = guard.max_segment
+            c['steps_total'] = guard.total
         c.update(res.get('counters', {}))
         res['counters'] = c
         out.write(json.dumps(res, default=repr) + '\n')
@@ -148,7 +163,18 @@ def main(argv=None):
     if args.replay:
         with open(args.replay) as f:
             doc = json.load(f)
-        vio = mod.replay(doc)
+        if doc.get('by_case'):
+            # witness identified by its (deterministic) case number: re-run that case under the hang guard
+            from harness import monitors
+            monitors.GUARD.arm()
+            try:
+                vio = mod.run_case(doc['case'], doc['seed'], doc['tier']).get('violations', [])
+            except monitors.BudgetExceeded as e:
+                vio = [{'key': 'nonterminating:%s' % e, 'detail': 'library call did not return within the step budget'}]
+            finally:
+                monitors.GUARD.disarm()
+        else:
+            vio = mod.replay(doc)
         new = [v for v in vio if v['key'] not in known_keys]
         for v in vio:
             print('%s %s: %s' % ('KNOWN' if v['key'] in known_keys else 'VIOLATED', v['key'], v.get('detail', '')[:300]))
@@ -192,7 +218,10 @@ def main(argv=None):
     for r in sorted(results, key=lambda r: r['case']):
         for k, v in r.get('counters', {}).items():
             if isinstance(v, (int, float)):
-                counters[k] = counters.get(k, 0) + v
+                if k.startswith('max:'):
+                    counters[k] = max(counters.get(k, 0), v)
+                else:
+                    counters[k] = counters.get(k, 0) + v
         if r['verdict'] == 'inconclusive':
             inconclusive += 1
             if r.get('error'):
@@ -238,7 +267,7 @@ def main(argv=None):
             reach_msgs.append('%s=%s < %s' % (name, counters.get(name, 0), minimum))
     verdict_inconclusive = False
     if exit_code == 0:
-        if errors or harness_errors or timed_out and evaluations < min_eval or evaluations < min_eval or not reach_ok:
+        if errors or harness_errors or timed_out or evaluations < min_eval or not reach_ok:
             verdict_inconclusive = True
 
     for case, err, tb in harness_errors[:5]:
